@@ -66,20 +66,53 @@ def run_case(idx, rng, tier, res):
     noisy = rng.random() < 0.3
     texts = g.texts((lambda: Layout(rng, 'noisy')) if noisy else None)
     names = [m.name for m in g.modules]
-    requested = [names[-1]] if rng.random() < 0.5 else list(reversed(names))
-    # make every module reachable: request all that the last one does not import
+    imports = dict((m.name, [x for x, _syms in m.imports if x in names]) for m in g.modules)
+
+    def reach(start):
+        seen, q = set(), list(start)
+        while q:
+            n = q.pop()
+            if n not in seen:
+                seen.add(n)
+                q.extend(imports.get(n, []))
+        return seen
+    # what is asked for: everything in some order, or only the roots of the import graph (the rest has
+    # to be found through IMPORTS); a third of the sets keeps two modules in one file, the one nobody
+    # imports first, and that file is asked for by the name of its last module only
+    mode = rng.choice(['all', 'reversed', 'roots', 'roots'])
+    if len(names) >= 2 and rng.random() < 0.33:
+        first, host = names[-1], rng.choice(names[:-1])
+        if first not in reach([host]) - set([host]) and not any(first in v for v in imports.values()):
+            texts = dict(texts)
+            texts[host] = texts.pop(first) + '\n' + texts[host]
+            res.count('two_modules_in_one_file')
+            mode = 'roots'
+            imports[host] = imports[host] + imports[first]      # the file's closure
+            imports.pop(first)
+    fnames = [n for n in names if n in texts]
+    if mode == 'all':
+        requested = list(fnames)
+    elif mode == 'reversed':
+        requested = list(reversed(fnames))
+    else:
+        requested = []
+        for n in reversed(fnames):
+            if n not in reach(requested):
+                requested.append(n)
+        rng.shuffle(requested)
+    res.cell('ask:' + mode)
     res.sig = harness.stable_hash(g.signature())
     for k, v in g.stats.items():
         res.count(k, v)
     imported_parent = g.stats.get('parent_imported', 0) + g.stats.get('trap_enterprise_imported', 0)
     res.nontrivial = imported_parent >= 1 and g.stats.get('forward_parent_refs', 0) >= 1
     gt = rng.random() < 0.3
-    replay = {'texts': texts, 'requested': names, 'genTexts': gt}
+    replay = {'texts': texts, 'requested': requested, 'genTexts': gt}
 
     outs = {}
     for backend in ('json', 'pysnmp'):
         try:
-            results, written = pipeline.compile_set(texts, names, codegen=backend, genTexts=gt)
+            results, written = pipeline.compile_set(texts, requested, codegen=backend, genTexts=gt)
         except Exception as exc:
             res.violation('compile_raised', '%s backend: %r' % (backend, exc), replay=replay,
                           backend=backend)
@@ -172,7 +205,7 @@ def run_case(idx, rng, tier, res):
                         relation=relation(m, d))
     if idx % 400 == 0:
         res.sample = {'modules': names, 'layout': 'noisy' if noisy else 'plain',
-                      'text_of_last_module': texts[names[-1]][:1500],
+                      'text_of_last_module': texts[fnames[-1]][:1500],
                       'truth_sample': dict((d.name, d.oid.dotted()) for d in g.modules[-1].decls
                                            if getattr(d, 'oid', None) is not None)}
 
